@@ -219,6 +219,48 @@ def accumulation(ck, rng):
                     ck.violation("kernel-evaluator:chunk-boundary:deriv", {"n": n, "err": float(np.abs(g - db[:, j]).max())})
 
 
+def value_semantics(ck, rng, hists):
+    """spec/ValueSemantics.tla replayed on the evaluators and on mapped kernels: the caller reuses / overwrites its
+    feature arrays between calls and keeps earlier results (energy densities, derivative arrays)."""
+    import copy
+    import valuesem
+    for kind in ("kernel", "rbf", "antisym", "spline", "linear", "spinrbf"):
+        ev = make_eval(kind, rng)
+        fresh = copy.deepcopy(ev)
+        shape = (2, 9, N1) if kind == "spinrbf" else (9, N1)
+        vals = {c: rng.uniform(0.05, 0.95, size=shape) for c in ("c1", "c2", "c3")}
+        for h in hists:
+            ck.count(key=("vs", kind))
+            bad = valuesem.replay(h, vals, lambda A: ev(A), lambda A: fresh(A), tol=1e-12)
+            if bad:
+                ck.violation("value-semantics:evaluator:%s:%s" % (kind, bad[0][0]), {"history": h, "step": bad[0][1], "op": bad[0][2]})
+                break
+    fl = FeatureList([UMap(i, 0.3 + 0.1 * i) for i in range(1, 1 + N1)])
+    for ver, mode, nspin, kinds in (("v1", "SEP", 2, ["rbf"]), ("v1", "NPOL", 1, ["kernel", "linear"]), ("v1", "POL", 2, ["spinrbf"]),
+                                   ("v2", "SEP", 1, ["spline"]), ("v2", "NPOL", 2, ["rbf"])):
+        evs = [make_eval(k, rng) for k in kinds]
+        if ver == "v1":
+            mk = MappedDFTKernel(evs, fl, mode, MUL1["lda_x"], ADD1["zero"])
+        else:
+            mk = MappedDFTKernel2(evs, fl, mode, MUL2["gga_x"], ADD2["gga_c"])
+        fresh = copy.deepcopy(mk)
+        vals = {c: features(rng, nspin, 8, "off", 0.0) for c in ("c1", "c2", "c3")}
+        rt = rho_tuple_of(vals["c1"], rng) if ver == "v2" else None
+
+        def run(obj, A):
+            if ver == "v1":
+                return obj(A, rhocut=1e-6)
+            vt = tuple(np.zeros_like(r, order="F") for r in rt)
+            e_, de_ = obj(A, tuple(r.copy(order="F") for r in rt), vt, rhocut=1e-6)
+            return (e_, de_) + vt
+        for h in hists:
+            ck.count(key=("vs", ver, mode, nspin))
+            bad = valuesem.replay(h, vals, lambda A: run(mk, A), lambda A: run(fresh, A), tol=1e-12)
+            if bad:
+                ck.violation("value-semantics:mapped-kernel:%s:%s:%s" % (ver, mode, bad[0][0]), {"history": h, "step": bad[0][1], "op": bad[0][2]})
+                break
+
+
 def pairwise(cfgs, rng, want):
     """greedy pairwise cover over the configuration fields, then random fill"""
     keys = ("ver", "mode", "nspin", "mul", "add", "cut")
@@ -276,7 +318,9 @@ def main():
         ck.distinct |= {x if isinstance(x, str) else repr(x) for x in res["distinct"]}
     ck.sample(chosen[0])
     ck.sample(chosen[len(chosen) // 2])
-    for res in run_workers(os.path.abspath(__file__), [{"acc": True, "seed": ck.seed}], nproc=1, timeout=1200, allow_crash=True):
+    import valuesem
+    vs_hists = valuesem.model_and_histories(ck, want=8 if quick else 60)
+    for res in run_workers(os.path.abspath(__file__), [{"acc": True, "seed": ck.seed, "vs_hists": vs_hists}], nproc=1, timeout=1200, allow_crash=True):
         if "worker_died" in res:
             ck.violation("accumulate:process-died", {"returncode": res["worker_died"], "log": res["log"][-400:]})
         elif "crash" in res:
@@ -316,6 +360,7 @@ def worker(job):
     rng = np.random.default_rng(job["seed"])
     if job.get("acc"):
         accumulation(ck, rng)
+        value_semantics(ck, rng, job.get("vs_hists", []))
         return {"violations": ck.violations, "evaluations": ck.evaluations, "distinct": sorted(ck.distinct)}
     for k, c in enumerate(job["cfgs"]):
         # the number of grid points in the batch is part of the quantifier: 1, 2, 3 collide with the spin / channel
